@@ -110,6 +110,29 @@ def check(ctx):
     ctx.ob("R1", ys == [], "a single feature has no neighbour, hence no gap", func=f, sig="one feature -> %s" % gaps(ys), nontrivial=False)
     ys, t = H.run(f, {fp: []})
     ctx.ob("R1", ys == [], "no features, no gaps", func=f, sig="no features -> %s" % gaps(ys), nontrivial=False)
+    if ctx.tier == "thorough":
+        import itertools
+        P = 6
+        ivs = [(a_, b_) for a_ in range(1, P + 1) for b_ in range(a_, P + 1)]
+        n_lists = 0
+        bad = None
+        for n_ in (2, 3):
+            for combo in itertools.product(ivs, repeat=n_):
+                if any(combo[i][0] > combo[i + 1][0] for i in range(n_ - 1)):
+                    continue
+                for chroms in itertools.product(("chr1", "chr2"), repeat=n_):
+                    n_lists += 1
+                    ys, t = H.run(f, {fp: [feat("f%d" % i, chroms[i], iv[0], iv[1]) for i, iv in enumerate(combo)]})
+                    want = []
+                    for i in range(n_ - 1):
+                        if chroms[i] == chroms[i + 1] and combo[i][1] + 1 <= combo[i + 1][0] - 1:
+                            want.append((chroms[i], combo[i][1] + 1, combo[i + 1][0] - 1))
+                    if gaps(ys) != want and bad is None:
+                        bad = (list(zip(chroms, combo)), gaps(ys), want)
+        ctx.ob("R1", bad is None, "every adjacent pair on one seqid yields previous.end+1 .. next.start-1 when that is non-empty, nothing else is yielded: all %d "
+               "start-ordered lists of two or three intervals over six positions and two seqids agree with the reference" % n_lists, func=f,
+               sig="exhaustive small lists agree with the reference gaps" if bad is None else "list %s -> %s, reference %s" % bad)
+        ctx.extra["exhaustive_lists"] = n_lists
     # ------------------------------------------------------------- R3 seqid changes
     ys, t = H.run(f, {fp: [feat("A", "chr1", 10, 20), feat("B", "chr2", 30, 40)]})
     ctx.ob("R3", ys == [], "no feature is emitted when the seqid changes (no gap spans two sequences)", func=f, sig="chr1 then chr2 -> %s" % gaps(ys))
